@@ -31,8 +31,8 @@ Step(e, S) ==
     [] e.op = "insert"      -> UNION {Insert(s, e.i, e.hint) : s \in S}
     [] e.op = "clear"       -> {ClearQ(s) : s \in S}
     [] e.op = "refill"      -> UNION {Refill(s) : s \in S}
-    [] e.op = "maxg"        -> UNION {{o[2] : o \in {p \in GetMaxG(s) : p[1] = e.res}} : s \in S}
-    [] e.op = "maxl"        -> UNION {{o[2] : o \in {p \in GetMaxL(s) : p[1] = e.res}} : s \in S}
+    [] e.op = "maxg"        -> UNION {{o[2] : o \in {p \in GetMaxG(s) : p[1] = e.res \/ p[2].maxlen = 0 - 1}} : s \in S}
+    [] e.op = "maxl"        -> UNION {{o[2] : o \in {p \in GetMaxL(s) : p[1] = e.res \/ p[2].maxlen = 0 - 1}} : s \in S}
     [] e.op = "find"        -> {s \in S : Find(s, e.x) = e.res}
     [] e.op = "cq_insert"   -> UNION {CQInsert(s, e.i, e.key) : s \in S}
     [] e.op = "cq_best"     -> UNION {{o[3] : o \in {p \in CQBest(s) : p[1] = e.res /\ p[2] = e.key}} : s \in S}
